@@ -6,6 +6,7 @@ import (
 	"errors"
 	"net/url"
 	"reflect"
+	"sync"
 
 	"github.com/dgraph-io/badger"
 	"github.com/jirenius/go-res/logger"
@@ -25,6 +26,9 @@ type QueryStore struct {
 	log           logger.Logger
 	idxs          map[string]Index
 	iq            func(qs *QueryStore, q url.Values) (*IndexQuery, error)
+	pmu           sync.Mutex // protects pending
+	pcond         *sync.Cond // signaled when pending reaches zero
+	pending       int        // number of index updates queued or in progress
 }
 
 // Assert *QueryStore implements the store.QueryChange interface.
@@ -59,6 +63,7 @@ func NewQueryStore(st *Store, iq func(qs *QueryStore, q url.Values) (*IndexQuery
 		tq: taskqueue.NewTaskQueue(taskCapacity),
 		iq: iq,
 	}
+	qs.pcond = sync.NewCond(&qs.pmu)
 	st.OnChange(qs.handleChange)
 	return &qs
 }
@@ -167,15 +172,31 @@ func (qs *QueryStore) OnQueryChange(cb func(store.QueryChange)) {
 // Flush waits for the indexing queue to be cleared.
 func (qs *QueryStore) Flush() {
 	// TaskQueue.Flush only waits for the queue to be empty, which it is as
-	// soon as the last task is picked up. Tasks are handled in order, so wait
-	// for a task of our own to be done, to know that all previous tasks are too.
-	done := make(chan struct{})
-	qs.tq.Do(func() { close(done) })
-	<-done
+	// soon as the last task is picked up. Wait until every index update
+	// that is queued or in progress is done.
+	qs.pmu.Lock()
+	for qs.pending > 0 {
+		qs.pcond.Wait()
+	}
+	qs.pmu.Unlock()
+}
+
+// updateDone is called when a queued index update is done.
+func (qs *QueryStore) updateDone() {
+	qs.pmu.Lock()
+	qs.pending--
+	if qs.pending == 0 {
+		qs.pcond.Broadcast()
+	}
+	qs.pmu.Unlock()
 }
 
 func (qs *QueryStore) handleChange(id string, before, after interface{}) {
+	qs.pmu.Lock()
+	qs.pending++
+	qs.pmu.Unlock()
 	qs.tq.Do(func() {
+		defer qs.updateDone()
 		err := qs.updateIndex(id, before, after)
 		if err != nil {
 			if qs.log != nil {
